@@ -163,3 +163,109 @@ package phttp
 //@ func DefaultClientConfig
 //@ props C09 C17
 //@ ensures [documented-defaults] !result.Redirect && !result.ConnectSSL && result.Transport == result_of(DefaultTransportConfig, 0) && result.Dialer == result_of(DefaultDialerConfig, 0)
+
+// ---------------------------------------------------------------- warm-up, binding, closing (base.go), constructors (http.go)
+
+//@ func (b *BaseGun) WarmUp
+//@ props C11 C09
+//@ nilsafe
+//@ requires b.ClientConstructor != nil
+//@ ensures imp(result_of(b.createSharedDeps, 1) != nil, result1 == result_of(b.createSharedDeps, 1))
+
+//@ func (b *BaseGun) createSharedDeps
+//@ props C11
+//@ nilsafe
+//@ requires b.ClientConstructor != nil
+//@ ensures [pool-failure-is-returned] imp(result_of(b.prepareClientPool, 1) != nil, result1 == result_of(b.prepareClientPool, 1) && result0 == nil)
+//@ ensures [one-pool-shared-by-all-instances] imp(result1 == nil, result0 != nil && fresh(result0) && result0.clientPool == result_of(b.prepareClientPool, 0))
+
+// A pool of client-number clients (at least one), each built by the gun's client constructor, when shared clients are enabled.
+//@ func (b *BaseGun) prepareClientPool
+//@ props C11
+//@ nilsafe
+//@ requires b.ClientConstructor != nil
+//@ ensures [no-pool-unless-enabled] imp(!b.Config.SharedClient.Enabled, result0 == nil && result1 == nil && calls(b.ClientConstructor) == 0)
+//@ ensures [at-least-one-client] imp(b.Config.SharedClient.Enabled, b.Config.SharedClient.ClientNumber >= 1 && result1 == nil)
+//@ loop 0 invariant [one-new-client-per-round] calls(clientPool.Add) == i && calls(b.ClientConstructor) == i && i >= 0 && i <= b.Config.SharedClient.ClientNumber && clientPool != nil
+//@ ensures [pool-of-the-configured-size] imp(b.Config.SharedClient.Enabled, calls(clientPool.Add) == b.Config.SharedClient.ClientNumber && calls(b.ClientConstructor) == b.Config.SharedClient.ClientNumber)
+//@ at call clientPool.Add assert [the-client-just-built] arg(conn) == result_of(b.ClientConstructor, 0)
+//@ modifies b.Config.SharedClient.ClientNumber
+
+// Binding: the aggregator and the dependencies are taken once; with a shared pool the gun's own client is replaced by the next pooled one.
+//@ func (b *BaseGun) Bind
+//@ props C11 C09
+//@ nilsafe
+//@ requires deps.Log != nil
+//@ may_panic b.Aggregator != nil || aggregator == nil
+//@ ensures [bound] result == nil && b.Aggregator == aggregator && b.GunDeps == deps
+//@ ensures [pooled-client-when-shared] imp(typeis(deps.Shared, *SharedDeps) && deps.Shared.(*SharedDeps).clientPool != nil, calls(extraDeps.clientPool.Next) == 1 && b.Client == result_of(extraDeps.clientPool.Next, 0))
+//@ ensures [own-client-otherwise] imp(!typeis(deps.Shared, *SharedDeps) || deps.Shared.(*SharedDeps).clientPool == nil, b.Client == old(b.Client))
+
+//@ func (b *BaseGun) Close
+//@ props C09
+//@ nilsafe
+//@ ensures [close-hook-runs-once] imp(b.OnClose != nil, calls(b.OnClose) == 1 && result == result_of(b.OnClose, 0)) && imp(b.OnClose == nil, result == nil)
+
+//@ func NewHTTP1Gun
+//@ props C09
+//@ at call NewBaseGun assert [http1-client-and-the-given-config] arg(cfg) == cfg0 && arg(answLog) == answLog0
+
+// HTTP/2 only over TLS.
+//@ func NewHTTP2Gun
+//@ props C09 C19
+//@ ensures [no-http2-over-plain-tcp] iff(result1 != nil, !cfg.SSL) && imp(result1 != nil, result0 == nil && calls(NewBaseGun) == 0)
+//@ at call NewBaseGun assert [the-given-config] arg(cfg) == cfg0 && arg(answLog) == answLog0
+
+//@ func HTTP1ClientConstructor
+//@ props C09
+//@ may_panic true
+//@ at call NewTransport assert [transport-options-and-target] arg(conf) == clientConfig.Transport && arg(target) == target0
+//@ at call NewDialer assert [dialer-options] arg(conf) == clientConfig.Dialer
+//@ at call NewRedirectingClient assert [redirect-option] arg(tr) == result_of(NewTransport, 0) && arg(redirect) == clientConfig.Redirect
+//@ ensures result == result_of(NewRedirectingClient, 0)
+
+//@ func HTTP2ClientConstructor
+//@ props C09 C19
+//@ may_panic true
+//@ at call NewHTTP2Transport assert [transport-options-and-target] arg(conf) == clientConfig.Transport && arg(target) == target0
+//@ at call NewDialer assert [dialer-options] arg(conf) == clientConfig.Dialer
+//@ at call NewRedirectingClient assert [redirect-option] arg(tr) == result_of(NewHTTP2Transport, 0) && arg(redirect) == clientConfig.Redirect
+//@ ensures [http2-guard-around-the-client] typeis(result, *panicOnHTTP1Client) && result.(*panicOnHTTP1Client).Client == result_of(NewRedirectingClient, 0)
+
+//@ func DefaultHTTPGunConfig
+//@ props C17 C09
+//@ ensures [documented-defaults] !result.SSL && result.Client == result_of(DefaultClientConfig, 0) && !result.AutoTag.Enabled && result.AutoTag.URIElements == 2 && result.AutoTag.NoTagOnly && !result.AnswLog.Enabled && result.AnswLog.Path == "answ.log" && result.AnswLog.Filter == "error" && !result.HTTPTrace.DumpEnabled && !result.HTTPTrace.TraceEnabled && !result.SharedClient.Enabled
+
+//@ func DefaultHTTP2GunConfig
+//@ props C17 C09
+//@ ensures [documented-defaults] result.SSL && result.Client == result_of(DefaultClientConfig, 0) && !result.AutoTag.Enabled && result.AutoTag.URIElements == 2 && result.AutoTag.NoTagOnly && !result.AnswLog.Enabled && result.AnswLog.Path == "answ.log" && result.AnswLog.Filter == "error" && !result.HTTPTrace.DumpEnabled && !result.HTTPTrace.TraceEnabled && !result.SharedClient.Enabled
+
+// DNS pre-resolution: off when the cache is off; an already resolved target or a successful lookup turns the cache off.
+//@ func PreResolveTargetAddr
+//@ props C09
+//@ nilsafe
+//@ requires clientConf != nil
+//@ ensures [nothing-without-dns-cache] imp(!old(clientConf.Dialer.DNSCache), result0 == target && result1 == nil && calls(netutil.LookupReachable) == 0)
+//@ ensures [resolved-target-is-used-as-is] imp(old(clientConf.Dialer.DNSCache) && result_of(endpointIsResolved, 0), result0 == target && result1 == nil && !clientConf.Dialer.DNSCache)
+//@ ensures [lookup-failure-keeps-the-target-and-the-cache] imp(calls(netutil.LookupReachable) == 1 && result_of(netutil.LookupReachable, 1) != nil, result0 == target && result1 == result_of(netutil.LookupReachable, 1) && clientConf.Dialer.DNSCache)
+//@ ensures [resolved-address-is-used] imp(calls(netutil.LookupReachable) == 1 && result_of(netutil.LookupReachable, 1) == nil, result0 == result_of(netutil.LookupReachable, 0) && result1 == nil && !clientConf.Dialer.DNSCache)
+//@ at call netutil.LookupReachable assert arg(a0) == target0 && arg(a1) == clientConf.Dialer.Timeout
+//@ modifies clientConf.Dialer.DNSCache
+
+//@ func endpointIsResolved
+//@ props C09
+//@ modifies nothing
+//@ ensures imp(result_of(net.SplitHostPort, 2) != nil, !result)
+
+//@ struct GunConfig
+//@ props C17 C09
+//@ tag Target validate required
+//@ tag Target validate endpoint
+//@ tag AutoTag config auto-tag
+//@ tag AnswLog config answlog
+
+//@ struct AutoTagConfig
+//@ props C17 C10
+//@ tag URIElements validate min=1
+//@ tag URIElements config uri-elements
+//@ tag NoTagOnly config no-tag-only
